@@ -22,6 +22,12 @@ QB_LinkLens == {3}
 QB_Speeds == {1, 2}
 QB_Gates == {GNone, GMassLt(2)}      \* MassTotal < 2000 is false for the 2-car train: blocks
 
+\* ---- quick N: sign-encoded (negative) speed values mixed with positive ones, one link, <= 3 restrictions on 0..3
+QN_Trains == {Tr(1, 3)}
+QN_LinkLens == {3}
+QN_Speeds == {-3, -2, -1, 1, 2}
+QN_Gates == {GNone}
+
 \* ---- thorough A: one link, <= 4 restrictions on 0..6
 TA_Trains == {Tr(1, 3)}
 TA_LinkLens == {6}
